@@ -150,6 +150,46 @@ def run(seed, n, cfg):
             res[label] = entry
         except Exception as e:
             res[label] = {"pkg": f"raised:{type(e).__name__}"}
+    # hdl21.pdk.compile without naming a PDK while several are registered (whatever it does, it does it in every process)
+    try:
+        import hdl21.pdk as hp
+
+        for kind in PDKS:
+            pdk_module(kind)
+        t = pdk_design("sample", "C12PdkDefault")
+        try:
+            hp.compile(t)
+            pkg = h.to_proto(t)
+            res["pdk:default-of-several"] = {"pkg": sha(pkg.SerializeToString(deterministic=True))}
+        except Exception as e:
+            res["pdk:default-of-several"] = {"pkg": f"raised:{type(e).__name__}"}
+    except Exception as e:
+        res["pdk:default-of-several"] = {"pkg": f"raised-outside:{type(e).__name__}"}
+    # flatten(): the flat module's package and netlists
+    try:
+        from hdl21.flatten import flatten as hflatten
+        from hv.checks import c16
+
+        frng = random.Random(seed + 77)
+        for k in range(12):
+            d = c16.gen_design(frng)
+            label = f"flatten #{k}"
+            try:
+                fm = hflatten(build.build(d, uid=f"_fl{k}").top)
+                pkg = h.to_proto(fm)
+                entry = {"pkg": sha(pkg.SerializeToString(deterministic=True))}
+                for fmt in ("spice", "verilog"):
+                    try:
+                        dest = io.StringIO()
+                        h.netlist(pkg, dest, fmt=fmt)
+                        entry[fmt] = sha(dest.getvalue())
+                    except Exception as e:
+                        entry[fmt] = f"raised:{type(e).__name__}"
+                res[label] = entry
+            except Exception as e:
+                res[label] = {"pkg": f"raised:{type(e).__name__}"}
+    except Exception as e:
+        res["flatten #0"] = {"pkg": f"raised-outside:{type(e).__name__}"}
     # built-in generators and an example
     from hdl21.generators import Series, MosStack
 
